@@ -997,16 +997,19 @@ static JanetSignal run_vm(JanetFiber *fiber, Janet in) {
     }
 
     VM_OP(JOP_PUSH)
+    vm_commit();
     janet_fiber_push(fiber, stack[D]);
     stack = fiber->data + fiber->frame;
     vm_checkgc_pcnext();
 
     VM_OP(JOP_PUSH_2)
+    vm_commit();
     janet_fiber_push2(fiber, stack[A], stack[E]);
     stack = fiber->data + fiber->frame;
     vm_checkgc_pcnext();
 
     VM_OP(JOP_PUSH_3)
+    vm_commit();
     janet_fiber_push3(fiber, stack[A], stack[B], stack[C]);
     stack = fiber->data + fiber->frame;
     vm_checkgc_pcnext();
@@ -1014,6 +1017,7 @@ static JanetSignal run_vm(JanetFiber *fiber, Janet in) {
     VM_OP(JOP_PUSH_ARRAY) {
         const Janet *vals;
         int32_t len;
+        vm_commit();
         if (janet_indexed_view(stack[D], &vals, &len)) {
             janet_fiber_pushn(fiber, vals, len);
         } else {
@@ -1078,6 +1082,7 @@ static JanetSignal run_vm(JanetFiber *fiber, Janet in) {
         if (janet_checktype(callee, JANET_FUNCTION)) {
             func = janet_unwrap_function(callee);
             if (func->gc.flags & JANET_FUNCFLAG_TRACE) {
+                vm_commit();
                 vm_do_trace(func, fiber->stacktop - fiber->stackstart, fiber->data + fiber->stackstart);
             }
             if (janet_fiber_funcframe_tail(fiber, func)) {
